@@ -196,9 +196,10 @@ type cp struct {
 
 // Step is one entry of a verbose trace.
 type Step struct {
-	Tid  int
-	Kind Kind
-	Site string
+	Tid    int
+	Kind   Kind
+	Site   string
+	Choice string // non-default choice taken at this point ("" = default)
 }
 
 // Exec is one execution of the harness threads under one schedule.
@@ -363,8 +364,21 @@ func (x *Exec) choose(tid int, k Kind, n int, cost uint8) (int, bool) {
 		x.pi++
 	}
 	x.cps = append(x.cps, cp{pos: pos, n: n, cost: cost, tid: int8(tid), kind: k, hash: h})
-	if x.verbose {
-		x.steps = append(x.steps, Step{Tid: tid, Kind: k, Site: fmt.Sprintf("choice#%d=%d/%d", pos, c, n)})
+	if x.verbose && c != 0 {
+		what := fmt.Sprintf("choice#%d: option %d of %d", pos, c, n)
+		switch cost {
+		case costPreempt:
+			what = "PREEMPTED here, " + what
+		case costDeviation:
+			what = fmt.Sprintf("pool answers with object #%d (0 = most recently put, %d = miss), %s", c, n-1, what)
+		default:
+			what = "free switch, " + what
+		}
+		if len(x.steps) == 0 || tid < 0 {
+			x.steps = append(x.steps, Step{Tid: tid, Kind: k, Site: "(start)", Choice: what})
+		} else {
+			x.steps[len(x.steps)-1].Choice = what
+		}
 	}
 	return c, true
 }
@@ -407,6 +421,9 @@ func (t *thread) run(body func()) {
 	body()
 }
 
+// Choices is the number of choice points of the execution.
+func (x *Exec) Choices() int { return x.npos }
+
 // Points is the number of scheduling points of the execution.
 func (x *Exec) Points() int { return x.npoints }
 
@@ -427,25 +444,35 @@ func (x *Exec) ResetDirty() {
 }
 
 // Trace renders the verbose trace compactly: one line per run of consecutive
-// points of the same thread, with the call site of the first and last point.
+// points of the same thread (first and last call site), split at every non-default
+// choice.  A point is announced BEFORE its operation: a thread preempted at a point
+// performs that operation when it is resumed.
 func (x *Exec) Trace(max int) string {
 	var sb strings.Builder
 	i := 0
 	lines := 0
 	for i < len(x.steps) {
 		j := i
-		for j+1 < len(x.steps) && x.steps[j+1].Tid == x.steps[i].Tid {
+		for j+1 < len(x.steps) && x.steps[j+1].Tid == x.steps[i].Tid && x.steps[j].Choice == "" {
 			j++
 		}
 		if lines >= max {
 			fmt.Fprintf(&sb, "  … (%d more points)\n", len(x.steps)-i)
 			break
 		}
-		if i == j {
-			fmt.Fprintf(&sb, "  T%d  %s %s\n", x.steps[i].Tid, x.steps[i].Kind, x.steps[i].Site)
-		} else {
-			fmt.Fprintf(&sb, "  T%d  %s %s … %s %s (%d points)\n", x.steps[i].Tid, x.steps[i].Kind, x.steps[i].Site, x.steps[j].Kind, x.steps[j].Site, j-i+1)
+		a, b := x.steps[i], x.steps[j]
+		switch {
+		case a.Tid < 0:
+			fmt.Fprintf(&sb, "  start")
+		case i == j:
+			fmt.Fprintf(&sb, "  T%d  %s@%s", a.Tid, a.Kind, a.Site)
+		default:
+			fmt.Fprintf(&sb, "  T%d  %s@%s … %s@%s (%d points)", a.Tid, a.Kind, a.Site, b.Kind, b.Site, j-i+1)
 		}
+		if b.Choice != "" {
+			fmt.Fprintf(&sb, "  <- %s", b.Choice)
+		}
+		sb.WriteByte('\n')
 		lines++
 		i = j + 1
 	}
